@@ -396,10 +396,11 @@ func init() {
 		Name:     "vm-reuse-histories",
 		Run:      runC07,
 		Level:    "exploration",
-		Rule: "one run = one history of 1..6 invocations (RunCode or Call; normal, runtime error at depth d, host-builtin panic, frame/stack overflow, cancelled or deadline mid-run) on ONE VM, each with its own context, " +
+		Rule: "one run = one history of 1..7 invocations in one of two families (vm.NewEmpty + RunCode/Call; vm.New(main) + Run/Call/repeated Run): normal, runtime error at depth d, host-builtin panic, frame/stack overflow, cancelled or deadline mid-run, " +
+			"a Call of a function whose code a later RunCode replaced, invocations under context.Background(); payloads with closures, defers, imports from FSImporter or LocalImporter (failing module body, cancel aimed at the import park, follow-up import of the same module), threads started by one invocation and waited for by a later one; all on ONE VM, each with its own context, " +
 			"with stale cancels of earlier contexts placed between and inside later invocations, under one seeded schedule (the stale watcher is a task, so the instant it fires is a scheduling decision); " +
 			"every invocation is compared with the same invocation on a fresh VM fed only the state-carrying predecessors; non-trivial = at least one invocation ran after a failed/cancelled one or while a stale cancel was pending; distinct = distinct trace hash",
-		Real: []string{"vm.VirtualMachine (NewEmpty, RunCode, Call, Get, TOS, GlobalNames, start/stop, watcher)", "compiler", "parser", "risor.Config", "context"},
+		Real: []string{"vm.VirtualMachine (New, NewEmpty, Run, RunCode, Call, Get, TOS, GlobalNames, start/stop, watcher, importModule)", "importer.FSImporter / importer.LocalImporter", "compiler", "parser", "risor.Config", "context"},
 		Stub: []string{"scheduler (sim)", "host builtin hpanic", "reference = the same real VM code run fresh, outside the scheduler"},
 		Assumptions: []string{
 			"failing payloads fail before touching state that later invocations read; Call uses only functions of the most recent successful RunCode",
